@@ -6,6 +6,7 @@
    lines are discarded).  It yields the observable part of the symbol table: the number
    of FUNC and PUBLIC records, and the last INFO URL record. *)
 From RM Require Import C09.Grammar C10.Model C16.Model C16.Shared Gen.C16Ops.
+From RM Require Import C16.FileFetch.
 Open Scope Z_scope.
 
 Definition GIANT : Z := 100000.   (* generated lines are < 4 KiB or > 170 KiB *)
@@ -268,3 +269,16 @@ Definition stream_lookup (f : fs) (ss : list (server * resp)) : (Z * (Z * Z) * o
      | None => (1, (0, 0), None)
      end, f', lg).
 
+
+(* ---------------------------------------------------------------- fetch_lookup / locate_file (C16/FileFetch.v): binaries, extra debug info *)
+Definition file_lookup (f : fs) (locals : list bool) (ss : list server) (evs : list event) : qst :=
+  FileFetch.locate_file P0 f locals ss evs.
+(* 0 found locally (local path or cache), 1 downloaded, 2 NotFound, 3 dropped, 4 pending *)
+Definition q_result (s : qst) : Z :=
+  match q_l s with
+  | QDone QLocal => 0 | QDone (QFetched _) => 1 | QDone QNotFound => 2 | QDropped => 3 | QRun _ _ _ => 4
+  end.
+Definition q_olog (s : qst) : list Z := q_log s.
+Definition q_ofs (s : qst) : fs := q_fs s.
+Definition q_pending (s : qst) : bool := match q_l s with QRun _ _ _ => true | _ => false end.
+Definition q_cur (s : qst) : Z := match q_l s with QRun _ cur _ => s_id cur | _ => -1 end.
